@@ -312,9 +312,107 @@ def run_reset(ctx: Ctx, drv: Driver, n: int):
         ctx.sample({"reset_request": lines[min(3, len(lines) - 1)][:200], "result": impl[min(3, len(lines) - 1)][:80]})
 
 
+RULE_PROBES = ["*e* **s** _u_\n", "~~d~~\n", "[l](u) ![i](s)\n", "`c` &amp; \\* <http://a.b> <b>x</b>\n", "a  \nb\\\nc\n", "|a|b|\n|-|-|\n|1|2|\n",
+               "    code\n\n```\nf\n```\n", "> q\n\n***\n\n- i\n1. o\n", "[r]: /u\n\n[r]\n", "# h\n\nt\n===\n", "<div>\nx\n</div>\n",
+               "\"q\" -- (c) ...\n", "a*b*c **d**e* f_g_\n", "![a *b*](s \"t\")\n"]
+
+
+def run_reset_applied(ctx: Ctx, n: int):
+    """reset_rules blocks on instances with warm caches and, often, a chain that is empty on entry; the body also parses.
+    Afterwards not only the reported rules but what is *applied* (probe renders, compiled chains) must be as on entry."""
+    from markdown_it import MarkdownIt
+    from .statesnap import deep_state, diff
+
+    rng = ctx.rng
+    for i in range(n):
+        preset = ["zero", "commonmark", "js-default", "zero"][i % 4]
+        md = MarkdownIt(preset)
+        allr = md.get_all_rules()
+        k = rng.random()
+        pre_disabled = []
+        extra_input = None
+        if k < 0.5:
+            chain = rng.choice(["inline2", "inline", "block", "core"])
+            keep = {"block": {"paragraph"}, "inline": {"text"}, "core": {"normalize", "block", "inline", "text_join"}, "inline2": set()}[chain]
+            pre_disabled = [r for r in allr[chain] if r not in keep]
+            md.disable(pre_disabled, True)
+        for p_ in PROBES:
+            md.render(p_)                      # warm caches
+        before = [md.render(p_) for p_ in PROBES]
+        entry = md.get_active_rules()
+        deep0 = deep_state(md)
+        body = gen_body(rng, md)
+        def nopush(toks):
+            # a rule added inside the block stays (disabled) after it by design: not part of "the instance as on entry"
+            return [(t[0], nopush(t[1])) if t[0] == "[" else t for t in toks if t[0] != "push"]
+        body = nopush(body)
+        # interleave parses
+        body2 = []
+        for t in body:
+            body2.append(t)
+            if rng.random() < 0.6:
+                body2.append(("parse", rng.choice(PROBES)))
+
+        def ex(toks):
+            for t in toks:
+                if t[0] == "parse":
+                    act = md.get_active_rules()
+                    if "paragraph" not in act["block"] or "text" not in act["inline"] or not {"normalize", "block", "inline"} <= set(act["core"]):
+                        continue        # a configuration without the fallback rules is outside the property (the loops would spin)
+                    try:
+                        md.render(t[1])
+                    except (ModuleNotFoundError, IndexError, KeyError):
+                        pass
+                elif t[0] == "[":
+                    with md.reset_rules():
+                        ex(t[1])
+                else:
+                    exec_body(md, [t])
+        try:
+            with md.reset_rules():
+                ex(body2)
+            out = "u"
+        except (UserErr, UserBaseErr, KeyboardInterrupt) as e:
+            out = f"e:UserRaised{getattr(e, 'n', -1)}"
+        except Exception as e:  # noqa: BLE001
+            out = "e:" + type(e).__name__
+        ctx.count(("reset-applied", preset, repr(body2)[:200]), nontrivial=True)
+        what = None
+        if md.get_active_rules() != entry:
+            what = "active rules after a reset_rules block differ from those on entry"
+        else:
+            try:
+                after = [md.render(p_) for p_ in PROBES]
+            except Exception as e:  # noqa: BLE001
+                after = ["EXC " + type(e).__name__]
+            if after != before:
+                what = "renders after a reset_rules block differ from those before it although the reported rules are as on entry"
+            else:
+                dd = diff(deep0, deep_state(md))
+                ctx.corr_compared += 1
+                if dd:
+                    # look for an input on which the leftover shows: one probe per rule, against a twin that never ran the block
+                    twin = MarkdownIt(preset)
+                    if pre_disabled:
+                        twin.disable(pre_disabled, True)
+                    for p_ in RULE_PROBES:
+                        try:
+                            if md.render(p_) != twin.render(p_):
+                                what = "renders after a reset_rules block differ from an identically configured instance that never ran the block"
+                                extra_input = p_
+                                break
+                        except Exception:  # noqa: BLE001
+                            pass
+                    ctx.mismatch("a reset_rules block left state behind (compiled chains / attributes differ from entry)",
+                                 {"preset": preset, "body": repr(body2)[:400], "differences": dd})
+        if what:
+            ctx.fail("reset-not-restored", what, {"preset": preset, "body": repr(body2)[:600], "outcome": out, "input": extra_input})
+
+
 def run(ctx: Ctx) -> None:
     quick = ctx.quick()
     rng = ctx.rng
+    run_reset_applied(ctx, 400 if quick else 8000)
     ndocs = 120 if quick else 1500
     docs = list(gens.doc_stream(rng, ndocs, 6))
     docs[:3] = PROBES
